@@ -24,6 +24,8 @@ var csteps = []cstep{
 	{"tofield", "st.a = v + 10"},
 	{"condset", "if v == 0 {\n\tst.a = 7\n}"},
 	{"fieldadd", "st.a = st.a + 3"},
+	{"sliceadd", "xs[0] = xs[0] + 5"},
+	{"structvar", "sv.a = sv.a + v + 1"},
 }
 
 type lockStyle struct {
@@ -89,7 +91,7 @@ func ConcProgs(tier string) []ConcProg {
 	seen := map[string]bool{}
 	steps := csteps
 	if tier == "quick" {
-		steps = csteps[:4]
+		steps = append(append([]cstep{}, csteps[:4]...), csteps[6], csteps[7])
 	}
 	add := func(ls lockStyle, js joinStyle, t1, t2 []cstep, main []cstep, shape string) {
 		k := 1
@@ -109,7 +111,7 @@ func ConcProgs(tier string) []ConcProg {
 		}
 		seen[name] = true
 		var sb strings.Builder
-		fmt.Fprintf(&sb, "func %s() (uint64, uint64) {\n\t%s\n\tvar v uint64 = 0\n\tst := &CSt{a: 0}\n\t%s\n", name, ls.decl, js.setup(k))
+		fmt.Fprintf(&sb, "func %s() (uint64, uint64) {\n\t%s\n\tvar v uint64 = 0\n\tst := &CSt{a: 0}\n\txs := make([]uint64, 1)\n\tvar sv CSt\n\t%s\n", name, ls.decl, js.setup(k))
 		thread := func(ss []cstep) {
 			sb.WriteString("\tgo func() {\n")
 			for _, s := range ss {
@@ -137,7 +139,7 @@ func ConcProgs(tier string) []ConcProg {
 		for _, s := range main {
 			sb.WriteString(locked(ls, s, 1))
 		}
-		fmt.Fprintf(&sb, "\t%s\n\t%s\n\tr1 := v\n\tr2 := st.a\n\t%s\n\treturn r1, r2\n}\n", js.wait(k), ls.lock, ls.unlock)
+		fmt.Fprintf(&sb, "\t%s\n\t%s\n\tr1 := v\n\tr2 := st.a + xs[0]*1000 + sv.a*100000\n\t%s\n\treturn r1, r2\n}\n", js.wait(k), ls.lock, ls.unlock)
 		out = append(out, ConcProg{Name: name, Desc: name, Source: sb.String()})
 	}
 	for li, ls := range lockStyles {
